@@ -17,8 +17,8 @@ FILES = C01.FILES
 FUNCTIONS = C01.FUNCTIONS
 BOUNDS = {"quick": "all pairs of 10 carbon skeletons that 1-WL cannot separate or that have many automorphisms (P4, prism, K33, hexagon, two triangles, bicyclo[1.1.1]pentane, cube, decalin, bicyclopentyl; seeded renumberings); A: every graph of the small family (universe {0,1,2}, listed restrictions) of each class; B: every member of the same family (SCRG: same atom set), every "
                    "single-feature mutation of A, the same spec in the other three classes; templates star4/lonepair/dbond/ring4/sn2: A any "
-                   "ordering/parity (strided), B every ordering x parity of the same template and every single-feature mutation",
-          "thorough": "as quick with universe {0,1,2,3} for MG, full SCRG pair space, templates star5, star6 (strided), twocentre"}
+                   "ordering/parity (strided), B every ordering x parity of the same template and every single-feature mutation; regular cages: every cubic graph on 8 atoms (6), every 4-regular graph on 8 (6) and 9 atoms (16), all ordered pairs within a family x 320 seeded numberings of each",
+          "thorough": "as quick with universe {0,1,2,3} for MG, full SCRG pair space, templates star5, star6 (strided), twocentre; regular cages with 1600 numberings per pair"}
 OUTSIDE = ("pairs of graphs with more than 4 atoms other than template pairs; pairs containing unspecified parities (excluded by the property); "
            "pairs in which a graph is stereo-invalid (a descriptor lists an atom that is not bonded to its centre in that structure) - see known finding")
 ASSUMPTIONS = ["oracle: brute-force bijection search over public views; descriptor equivalence from rotation groups of idealised figures (validated in C04)"]
@@ -188,6 +188,30 @@ def hard(i, j, ri, rj, cls):
     return _judge("eq", ga, gl.snap(ga), gb, gl.snap(gb), f"{tmpl.SKELETON_NAMES[i]}(renumbering {ri}) vs {tmpl.SKELETON_NAMES[j]}(renumbering {rj})")
 
 
+CAGE_BLOCK = 40
+CAGE_FAMS = [(8, 3), (8, 4), (9, 4)]   # (atoms, degree): 6, 6 and 16 isomorphism classes
+
+
+def cages(f, i, j, blk, cls):
+    """pairs of k-regular single-element cages (every cubic graph on 8 atoms, every 4-regular graph on 8 and on 9 atoms, one representative per isomorphism
+    class, so #i ~ #j iff i == j), CAGE_BLOCK seeded numberings of each per call: on dense regular graphs colour refinement is blind and
+    candidate pruning in the matcher alone decides the answer, which makes the answer depend on the numbering"""
+    cname = gl.CLS_NAMES[cls]
+    n, deg = CAGE_FAMS[f]
+    for r in range(blk * CAGE_BLOCK, (blk + 1) * CAGE_BLOCK):
+        ga, gb = gl.build(tmpl.regular_spec(cname, n, deg, i, r)), gl.build(tmpl.regular_spec(cname, n, deg, j, 7 * r + 3))
+        for x, y, d in ((ga, gb, "A==B"), (gb, ga, "B==A")):
+            try:
+                got = (x == y)
+            except Exception as e:
+                return f"{deg}-regular {n}-atom cage #{i}(numbering {r}) vs #{j}(numbering {7 * r + 3}): {d} raised {type(e).__name__}: {e}"
+            if got != (i == j):
+                return (f"{deg}-regular {n}-atom cage #{i}(numbering {r}) vs #{j}(numbering {7 * r + 3}): {d} is {got}, but the cages are "
+                        f"{'the same graph renumbered' if i == j else 'not isomorphic (distinct classes under the brute-force oracle)'}; "
+                        f"bonds A {sorted(tuple(sorted(b)) for b in ga.bonds)} B {sorted(tuple(sorted(b)) for b in gb.bonds)}")
+    return None
+
+
 def pair_units(tier, func=None):
     units = []
     for cname in gl.CLS_NAMES:
@@ -203,6 +227,11 @@ def plan(tier, seed):
     units.append(Sel(name="hard_skeleton_pairs", func="vp.props.C02:hard",
                      params={"i": (0, nsk), "j": (0, nsk), "ri": (0, 4 if tier == "quick" else 12), "rj": (0, 4 if tier == "quick" else 12), "cls": (0, 2)},
                      pre=["cls == 0 or (ri < 2 and rj < 2)"], shard_by=[], timeout=1500, nontrivial="i != j"))
+    for (n, k) in CAGE_FAMS:
+        tmpl.regular_graphs(n, k)   # generated once, cached under .work for the shard processes
+    units.append(Sel(name="regular_cages", func="vp.props.C02:cages",
+                     params={"f": (0, 3), "i": (0, 16), "j": (0, 16), "blk": (0, 8 if tier == "quick" else 40), "cls": (0, 2)},
+                     pre=["f == 2 or (i < 6 and j < 6)", "cls == 0 or (blk < 1 and f < 2)"], shard_by=[], timeout=1500, nontrivial="i != j"))
     names = ["star4", "lonepair", "dbond", "ring4", "sn2"] + (["twocentre", "star5", "star6"] if tier == "thorough" else [])
     for (n, c, p, pr) in eqfam.template_units(names):
         params = {"t": (C01.TNAMES.index(n), C01.TNAMES.index(n) + 1), "cls": (gl.CLS_NAMES.index(c), gl.CLS_NAMES.index(c) + 1)}
